@@ -256,7 +256,7 @@ func modelEvents(h []fsops.Op) []string {
 					inapplicable = "INAPPLICABLE:" + op.String()
 					return
 				}
-				if op.Kind == "mkdir" {
+				if op.Kind == "mkdir" || op.Kind == "mvdir-in" {
 					_ = w.Add(filepath.Join(root, op.Dir))
 				}
 				sched.Quiesce("barrier")
@@ -544,7 +544,7 @@ func main() {
 				Converged []bool   `json:"converged"`
 				Detail    []string `json:"detail"`
 			}
-			if err := realHelper("replay", map[string]any{"dirs": dirs, "present": present, "histories": [][]fsops.Op{f.h}, "deadline_ms": 3000, "pace_ms": map[bool]int{true: 30, false: 0}[f.eager]}, &ro); err != nil {
+			if err := realHelper("replay", map[string]any{"dirs": dirs, "present": present, "histories": [][]fsops.Op{f.h}, "deadline_ms": 3000, "probe": true, "pace_ms": map[bool]int{true: 30, false: 0}[f.eager]}, &ro); err != nil {
 				die(2, "INFRA: real replay failed:", err)
 			}
 			if ro.Converged[0] {
@@ -572,7 +572,7 @@ func main() {
 		var ro struct {
 			Converged []bool `json:"converged"`
 		}
-		if err := realHelper("replay", map[string]any{"dirs": dirs, "present": present, "histories": sample, "deadline_ms": 5000}, &ro); err == nil {
+		if err := realHelper("replay", map[string]any{"dirs": dirs, "present": present, "histories": sample, "deadline_ms": 5000, "probe": true}, &ro); err == nil {
 			for _, c := range ro.Converged {
 				if c {
 					realPass++
